@@ -13,6 +13,7 @@ import (
 	"strings"
 	"sync/atomic"
 	"testing"
+	"time"
 
 	"golang.org/x/telemetry/internal/verifrt"
 )
@@ -75,256 +76,303 @@ func TestVerifC18(t *testing.T) {
 	const check = "C18.model"
 	res := verifrt.NewResult(check)
 	res.Rule = "random sequences (5-200 ops) of write / overwrite with longer, shorter and empty content / read / read-absent / list(prefix) / Copy / listing and reading everything else while one object is half-written / two writers open at once (each closed twice, as the services do) / two listings with overlapping lifetimes, over a pool of slash-separated names (1-5 levels, plus siblings that differ by .tmp ~ .part .lock .swp suffixes or a leading dot; components with dots, dashes, '=', spaces, unicode, date-like; no name a directory-prefix of another); prefixes: empty, every component boundary, mid-component, whole names, non-matching. Oracle: in-memory map; after every op every regular file under the scratch root lies at <dir>/<bucket>/<name> and nothing else exists. distinct = distinct sequences; non-trivial = sequence overwrote at least one object and listed with a non-empty prefix"
-	base := vtmp("c18-")
-	defer os.RemoveAll(base)
-	ctx := context.Background()
-	n := verifrt.Scale(500, 30000)
-	for i := 0; i < n; i++ {
-		if !verifrt.WantCase(check, i) {
-			continue
-		}
-		rnd := verifrt.NewRand(verifrt.Seed(), fmt.Sprintf("%s/%d", check, i))
-		root, _ := os.MkdirTemp(base, "s")
-		bucketName := verifrt.Pick(rnd, []string{"local-telemetry-uploaded", "b", "x.y", "merged"})
-		placeDir := bucketName
-		if i%5 == 4 {
-			// the bucket's directory entry is a symbolic link to a directory (storage
-			// mounted elsewhere): objects live in the target, and are listed as ever
-			placeDir = "zz-volume"
-			os.Mkdir(filepath.Join(root, placeDir), 0o777)
-			if err := os.Symlink(placeDir, filepath.Join(root, bucketName)); err == nil {
-				res.Hit("bucket-directory-is-a-symlink")
-			} else {
-				placeDir = bucketName
+	// (child batches: an operation that takes the test process down with it, e.g. a
+	// listing that panics because a write removed the bucket's directory, is a
+	// verdict and not a failure of the harness)
+	const nb = 4
+	parent := res
+	verifrt.RunBatches("TestVerifC18", parent, nb, 0, 40*time.Minute, "storage-operation-killed-the-process", func(batch int, res *verifrt.Result, cur *verifrt.Current) {
+		base := vtmp("c18-")
+		defer os.RemoveAll(base)
+		ctx := context.Background()
+		n := verifrt.Scale(500, 30000)
+		for i := 0; i < n; i++ {
+			if !verifrt.WantCase(check, i) || i%nb != batch {
+				continue
 			}
-		}
-		bh, err := NewFSBucket(ctx, root, bucketName)
-		if err != nil {
-			res.Violate("new-bucket", err.Error(), verifrt.CaseReplay(i, nil))
-			continue
-		}
-		other, _ := NewFSBucket(ctx, root, "other-bucket")
-		names := c18Names(rnd, 3+rnd.Intn(12))
-		// sibling names that differ by a suffix or prefix an implementation might
-		// use for scratch files: they are ordinary object names
-		for _, n := range names[:1+rnd.Intn(3)] {
-			switch rnd.Intn(3) {
-			case 0:
-				names = append(names, n+verifrt.Pick(rnd, []string{".tmp", "~", ".part", ".new", ".bak", ".lock", ".swp", ".tmp.tmp", ".1"}))
-			case 1:
-				if j := strings.LastIndex(n, "/"); j >= 0 {
-					names = append(names, n[:j+1]+"."+n[j+1:]+verifrt.Pick(rnd, []string{".tmp", "", ".swp"}))
+			if cur != nil {
+				cur.Set(fmt.Sprintf("case %d", i))
+			}
+			rnd := verifrt.NewRand(verifrt.Seed(), fmt.Sprintf("%s/%d", check, i))
+			root, _ := os.MkdirTemp(base, "s")
+			bucketName := verifrt.Pick(rnd, []string{"local-telemetry-uploaded", "b", "x.y", "merged"})
+			placeDir := bucketName
+			if i%5 == 4 {
+				// the bucket's directory entry is a symbolic link to a directory (storage
+				// mounted elsewhere): objects live in the target, and are listed as ever
+				placeDir = "zz-volume"
+				os.Mkdir(filepath.Join(root, placeDir), 0o777)
+				if err := os.Symlink(placeDir, filepath.Join(root, bucketName)); err == nil {
+					res.Hit("bucket-directory-is-a-symlink")
 				} else {
-					names = append(names, "."+n+".tmp")
+					placeDir = bucketName
 				}
 			}
-		}
-		model := map[string][]byte{}
-		nops := verifrt.Pick(rnd, []int{5, 20, 60, 200})
-		var sig strings.Builder
-		overwrote, prefixed := false, false
-		res.Eval()
-		bad := false
-		for op := 0; op < nops && !bad; op++ {
-			rp := verifrt.CaseReplay(i, map[string]any{"op": op, "ops": sig.String()})
-			name := names[rnd.Intn(len(names))]
-			switch k := rnd.Intn(13); {
-			case k == 12: // two listings with overlapping lifetimes
-				pa, pb := "", name[:rnd.Intn(len(name)+1)]
-				if rnd.Bool() {
-					pa, pb = pb, pa
+			bh, err := NewFSBucket(ctx, root, bucketName)
+			if err != nil {
+				res.Violate("new-bucket", err.Error(), verifrt.CaseReplay(i, nil))
+				continue
+			}
+			other, _ := NewFSBucket(ctx, root, "other-bucket")
+			names := c18Names(rnd, 3+rnd.Intn(12))
+			// sibling names that differ by a suffix or prefix an implementation might
+			// use for scratch files: they are ordinary object names
+			for _, n := range names[:1+rnd.Intn(3)] {
+				switch rnd.Intn(3) {
+				case 0:
+					names = append(names, n+verifrt.Pick(rnd, []string{".tmp", "~", ".part", ".new", ".bak", ".lock", ".swp", ".tmp.tmp", ".1"}))
+				case 1:
+					if j := strings.LastIndex(n, "/"); j >= 0 {
+						names = append(names, n[:j+1]+"."+n[j+1:]+verifrt.Pick(rnd, []string{".tmp", "", ".swp"}))
+					} else {
+						names = append(names, "."+n+".tmp")
+					}
 				}
-				wantOf := func(prefix string) string {
-					var w []string
-					for n := range model {
-						if strings.HasPrefix(n, prefix) {
-							w = append(w, n)
+			}
+			model := map[string][]byte{}
+			nops := verifrt.Pick(rnd, []int{5, 20, 60, 200})
+			var sig strings.Builder
+			overwrote, prefixed := false, false
+			res.Eval()
+			bad := false
+			for op := 0; op < nops && !bad; op++ {
+				rp := verifrt.CaseReplay(i, map[string]any{"op": op, "ops": sig.String()})
+				name := names[rnd.Intn(len(names))]
+				switch k := rnd.Intn(13); {
+				case k == 12: // two listings with overlapping lifetimes
+					pa, pb := "", name[:rnd.Intn(len(name)+1)]
+					if rnd.Bool() {
+						pa, pb = pb, pa
+					}
+					wantOf := func(prefix string) string {
+						var w []string
+						for n := range model {
+							if strings.HasPrefix(n, prefix) {
+								w = append(w, n)
+							}
+						}
+						sort.Strings(w)
+						return strings.Join(w, "\x00")
+					}
+					drain := func(it ObjectIterator, first []string) string {
+						got := append([]string(nil), first...)
+						for k := 0; k < 100000; k++ {
+							o, err := it.Next()
+							if err != nil {
+								break
+							}
+							got = append(got, o)
+						}
+						sort.Strings(got)
+						return strings.Join(got, "\x00")
+					}
+					itA := bh.Objects(ctx, pa)
+					var firstA []string
+					if o, err := itA.Next(); err == nil {
+						firstA = append(firstA, o)
+					}
+					itB := bh.Objects(ctx, pb)
+					gotB := drain(itB, nil)
+					gotA := drain(itA, firstA)
+					if gotA != wantOf(pa) || gotB != wantOf(pb) {
+						res.Violate("list-mismatch:overlapping-listings", fmt.Sprintf("two listings in progress at once: Objects(%q) gave %q (stored: %q), Objects(%q) gave %q (stored: %q)", pa, gotA, wantOf(pa), pb, gotB, wantOf(pb)), rp)
+						bad = true
+					}
+					res.Hit("overlapping-listings")
+					fmt.Fprintf(&sig, "L(%s|%s);", pa, pb)
+				case k == 11: // two writers open at the same time, closed the way the services do (twice)
+					other := names[rnd.Intn(len(names))]
+					if other == name {
+						break
+					}
+					ca, cb := rnd.Bytes(rnd.Intn(400)), rnd.Bytes(rnd.Intn(400))
+					wa, err1 := bh.Object(name).NewWriter(ctx)
+					wb, err2 := bh.Object(other).NewWriter(ctx)
+					if err1 != nil || err2 != nil {
+						res.Violate("write-failed", fmt.Sprintf("opening two writers: %v / %v", err1, err2), rp)
+						bad = true
+						break
+					}
+					wa.Write(ca[:len(ca)/2])
+					wb.Write(cb[:len(cb)/2])
+					wa.Write(ca[len(ca)/2:])
+					wb.Write(cb[len(cb)/2:])
+					e1 := wa.Close()
+					wa.Close() // (handlers defer a Close and also close explicitly)
+					e2 := wb.Close()
+					wb.Close()
+					if e1 != nil || e2 != nil {
+						res.Violate("write-failed", fmt.Sprintf("closing two writers: %v / %v", e1, e2), rp)
+						bad = true
+						break
+					}
+					if _, ok := model[name]; ok {
+						overwrote = true
+					}
+					model[name], model[other] = ca, cb
+					for _, n := range []string{name, other} {
+						rd, err := bh.Object(n).NewReader(ctx)
+						if err != nil {
+							res.Violate("read-failed", fmt.Sprintf("reading %q after two interleaved writers: %v", n, err), rp)
+							bad = true
+							break
+						}
+						got, _ := io.ReadAll(rd)
+						rd.Close()
+						if string(got) != string(model[n]) {
+							res.Violate("roundtrip:two-writers", fmt.Sprintf("two writers open at once: object %q reads %d bytes, written %d (contents differ)", n, len(got), len(model[n])), rp)
+							bad = true
 						}
 					}
-					sort.Strings(w)
-					return strings.Join(w, "\x00")
-				}
-				drain := func(it ObjectIterator, first []string) string {
-					got := append([]string(nil), first...)
+					res.Hit("two-writers-at-once")
+					fmt.Fprintf(&sig, "WW(%s,%s);", name, other)
+				case k == 10: // a write in progress while the bucket is listed and read
+					content := rnd.Bytes(rnd.Intn(2000))
+					w, err := bh.Object(name).NewWriter(ctx)
+					if err != nil {
+						res.Violate("write-failed", fmt.Sprintf("opening a writer for %q: %v", name, err), rp)
+						bad = true
+						break
+					}
+					half := len(content) / 2
+					w.Write(content[:half])
+					it := bh.Objects(ctx, "")
+					seen := map[string]bool{}
 					for k := 0; k < 100000; k++ {
 						o, err := it.Next()
 						if err != nil {
 							break
 						}
-						got = append(got, o)
+						seen[o] = true
 					}
-					sort.Strings(got)
-					return strings.Join(got, "\x00")
-				}
-				itA := bh.Objects(ctx, pa)
-				var firstA []string
-				if o, err := itA.Next(); err == nil {
-					firstA = append(firstA, o)
-				}
-				itB := bh.Objects(ctx, pb)
-				gotB := drain(itB, nil)
-				gotA := drain(itA, firstA)
-				if gotA != wantOf(pa) || gotB != wantOf(pb) {
-					res.Violate("list-mismatch:overlapping-listings", fmt.Sprintf("two listings in progress at once: Objects(%q) gave %q (stored: %q), Objects(%q) gave %q (stored: %q)", pa, gotA, wantOf(pa), pb, gotB, wantOf(pb)), rp)
-					bad = true
-				}
-				res.Hit("overlapping-listings")
-				fmt.Fprintf(&sig, "L(%s|%s);", pa, pb)
-			case k == 11: // two writers open at the same time, closed the way the services do (twice)
-				other := names[rnd.Intn(len(names))]
-				if other == name {
-					break
-				}
-				ca, cb := rnd.Bytes(rnd.Intn(400)), rnd.Bytes(rnd.Intn(400))
-				wa, err1 := bh.Object(name).NewWriter(ctx)
-				wb, err2 := bh.Object(other).NewWriter(ctx)
-				if err1 != nil || err2 != nil {
-					res.Violate("write-failed", fmt.Sprintf("opening two writers: %v / %v", err1, err2), rp)
-					bad = true
-					break
-				}
-				wa.Write(ca[:len(ca)/2])
-				wb.Write(cb[:len(cb)/2])
-				wa.Write(ca[len(ca)/2:])
-				wb.Write(cb[len(cb)/2:])
-				e1 := wa.Close()
-				wa.Close() // (handlers defer a Close and also close explicitly)
-				e2 := wb.Close()
-				wb.Close()
-				if e1 != nil || e2 != nil {
-					res.Violate("write-failed", fmt.Sprintf("closing two writers: %v / %v", e1, e2), rp)
-					bad = true
-					break
-				}
-				if _, ok := model[name]; ok {
-					overwrote = true
-				}
-				model[name], model[other] = ca, cb
-				for _, n := range []string{name, other} {
-					rd, err := bh.Object(n).NewReader(ctx)
-					if err != nil {
-						res.Violate("read-failed", fmt.Sprintf("reading %q after two interleaved writers: %v", n, err), rp)
-						bad = true
-						break
-					}
-					got, _ := io.ReadAll(rd)
-					rd.Close()
-					if string(got) != string(model[n]) {
-						res.Violate("roundtrip:two-writers", fmt.Sprintf("two writers open at once: object %q reads %d bytes, written %d (contents differ)", n, len(got), len(model[n])), rp)
-						bad = true
-					}
-				}
-				res.Hit("two-writers-at-once")
-				fmt.Fprintf(&sig, "WW(%s,%s);", name, other)
-			case k == 10: // a write in progress while the bucket is listed and read
-				content := rnd.Bytes(rnd.Intn(2000))
-				w, err := bh.Object(name).NewWriter(ctx)
-				if err != nil {
-					res.Violate("write-failed", fmt.Sprintf("opening a writer for %q: %v", name, err), rp)
-					bad = true
-					break
-				}
-				half := len(content) / 2
-				w.Write(content[:half])
-				it := bh.Objects(ctx, "")
-				seen := map[string]bool{}
-				for k := 0; k < 100000; k++ {
-					o, err := it.Next()
-					if err != nil {
-						break
-					}
-					seen[o] = true
-				}
-				for n := range model {
-					if !seen[n] && n != name {
-						res.Violate("list-mismatch:during-write", fmt.Sprintf("while %q is being written, stored object %q is missing from the listing", name, n), rp)
-						bad = true
-					}
-				}
-				for o := range seen {
-					if _, ok := model[o]; !ok && o != name {
-						res.Violate("list-mismatch:during-write", fmt.Sprintf("while %q is being written, the listing names %q which nobody stored", name, o), rp)
-						bad = true
-					}
-				}
-				for n, c := range model {
-					if n == name {
-						continue
-					}
-					rd, err := bh.Object(n).NewReader(ctx)
-					if err != nil {
-						res.Violate("read-failed:during-write", fmt.Sprintf("while %q is being written, reading %q: %v", name, n, err), rp)
-						bad = true
-						break
-					}
-					got, _ := io.ReadAll(rd)
-					rd.Close()
-					if string(got) != string(c) {
-						res.Violate("roundtrip:during-write", fmt.Sprintf("while %q is being written, object %q reads %d bytes, stored %d", name, n, len(got), len(c)), rp)
-						bad = true
-					}
-				}
-				w.Write(content[half:])
-				if err := w.Close(); err != nil {
-					res.Violate("write-failed", fmt.Sprintf("closing the writer of %q: %v", name, err), rp)
-					bad = true
-					break
-				}
-				if _, ok := model[name]; ok {
-					overwrote = true
-				}
-				model[name] = content
-				res.Hit("list-during-write")
-				fmt.Fprintf(&sig, "W(%s,%d);", name, len(content))
-			case k < 4: // write / overwrite
-				var content []byte
-				switch rnd.Intn(4) {
-				case 0:
-					content = nil
-				case 1:
-					content = rnd.Bytes(1 + rnd.Intn(8))
-				default:
-					content = rnd.Bytes(rnd.Intn(3000))
-				}
-				if old, ok := model[name]; ok {
-					overwrote = true
-					if len(content) < len(old) {
-						res.Hit("overwrite-shorter")
-					}
-				}
-				w, err := bh.Object(name).NewWriter(ctx)
-				if err == nil {
-					_, err = w.Write(content)
-					if cerr := w.Close(); err == nil {
-						err = cerr
-					}
-					if rnd.Bool() {
-						w.Close() // closed twice, as by a deferred and an explicit Close
-					}
-				}
-				if err != nil {
-					res.Violate("write-failed", fmt.Sprintf("writing %q: %v", name, err), rp)
-					bad = true
-					break
-				}
-				model[name] = content
-				fmt.Fprintf(&sig, "w(%s,%d);", name, len(content))
-			case k < 6: // read
-				if _, stored := model[name]; stored && rnd.Intn(4) == 0 {
-					// an absent object whose name is a directory of stored objects, or
-					// lies below a stored object: ordinary names, never written
-					absent, kind := name+"/"+verifrt.Pick(rnd, []string{"y", "x.json", "2024-01-01.json"}), "below-an-object"
-					if j := strings.LastIndex(name, "/"); j > 0 && rnd.Bool() {
-						absent, kind = name[:j], "directory-of-objects"
-						if k := strings.Index(name, "/"); k != j && rnd.Bool() {
-							absent = name[:k]
+					for n := range model {
+						if !seen[n] && n != name {
+							res.Violate("list-mismatch:during-write", fmt.Sprintf("while %q is being written, stored object %q is missing from the listing", name, n), rp)
+							bad = true
 						}
 					}
-					if _, isObj := model[absent]; !isObj {
-						rd, err := bh.Object(absent).NewReader(ctx)
-						res.Hit("read-absent:" + kind)
+					for o := range seen {
+						if _, ok := model[o]; !ok && o != name {
+							res.Violate("list-mismatch:during-write", fmt.Sprintf("while %q is being written, the listing names %q which nobody stored", name, o), rp)
+							bad = true
+						}
+					}
+					for n, c := range model {
+						if n == name {
+							continue
+						}
+						rd, err := bh.Object(n).NewReader(ctx)
+						if err != nil {
+							res.Violate("read-failed:during-write", fmt.Sprintf("while %q is being written, reading %q: %v", name, n, err), rp)
+							bad = true
+							break
+						}
+						got, _ := io.ReadAll(rd)
+						rd.Close()
+						if string(got) != string(c) {
+							res.Violate("roundtrip:during-write", fmt.Sprintf("while %q is being written, object %q reads %d bytes, stored %d", name, n, len(got), len(c)), rp)
+							bad = true
+						}
+					}
+					w.Write(content[half:])
+					if err := w.Close(); err != nil {
+						res.Violate("write-failed", fmt.Sprintf("closing the writer of %q: %v", name, err), rp)
+						bad = true
+						break
+					}
+					if _, ok := model[name]; ok {
+						overwrote = true
+					}
+					model[name] = content
+					res.Hit("list-during-write")
+					fmt.Fprintf(&sig, "W(%s,%d);", name, len(content))
+				case k < 4 && rnd.Intn(6) == 0 && strings.Contains(name, "/"):
+					// a write to a name that is a directory of stored objects (or would be
+					// one): a file system cannot hold it; whatever the outcome of that write,
+					// the objects below it stay what they are (judged by the placement check
+					// after every op)
+					if _, stored := model[name]; !stored {
+						break
+					}
+					dirName := name[:strings.LastIndex(name, "/")]
+					if rnd.Bool() {
+						dirName = name[:strings.Index(name, "/")]
+					}
+					if _, isObj := model[dirName]; isObj {
+						break
+					}
+					if w, err := bh.Object(dirName).NewWriter(ctx); err == nil {
+						w.Write([]byte("x"))
+						w.Close()
+						if fi, serr := os.Stat(filepath.Join(root, placeDir, filepath.FromSlash(dirName))); serr == nil && fi.Mode().IsRegular() {
+							model[dirName] = []byte("x")
+						}
+					}
+					res.Hit("write-to-directory-of-objects")
+					fmt.Fprintf(&sig, "wd(%s);", dirName)
+				case k < 4: // write / overwrite
+					var content []byte
+					switch rnd.Intn(4) {
+					case 0:
+						content = nil
+					case 1:
+						content = rnd.Bytes(1 + rnd.Intn(8))
+					default:
+						content = rnd.Bytes(rnd.Intn(3000))
+					}
+					if old, ok := model[name]; ok {
+						overwrote = true
+						if len(content) < len(old) {
+							res.Hit("overwrite-shorter")
+						}
+					}
+					w, err := bh.Object(name).NewWriter(ctx)
+					if err == nil {
+						_, err = w.Write(content)
+						if cerr := w.Close(); err == nil {
+							err = cerr
+						}
+						if rnd.Bool() {
+							w.Close() // closed twice, as by a deferred and an explicit Close
+						}
+					}
+					if err != nil {
+						res.Violate("write-failed", fmt.Sprintf("writing %q: %v", name, err), rp)
+						bad = true
+						break
+					}
+					model[name] = content
+					fmt.Fprintf(&sig, "w(%s,%d);", name, len(content))
+				case k < 6: // read
+					if _, stored := model[name]; stored && rnd.Intn(4) == 0 {
+						// an absent object whose name is a directory of stored objects, or
+						// lies below a stored object: ordinary names, never written
+						absent, kind := name+"/"+verifrt.Pick(rnd, []string{"y", "x.json", "2024-01-01.json"}), "below-an-object"
+						if j := strings.LastIndex(name, "/"); j > 0 && rnd.Bool() {
+							absent, kind = name[:j], "directory-of-objects"
+							if k := strings.Index(name, "/"); k != j && rnd.Bool() {
+								absent = name[:k]
+							}
+						}
+						if _, isObj := model[absent]; !isObj {
+							rd, err := bh.Object(absent).NewReader(ctx)
+							res.Hit("read-absent:" + kind)
+							if !errors.Is(err, ErrObjectNotExist) {
+								res.Violate("absent-not-notexist:"+kind, fmt.Sprintf("reading absent %q (stored: %q): reader=%v err=%v", absent, name, rd != nil, err), rp)
+								bad = true
+							}
+							if rd != nil {
+								rd.Close()
+							}
+							break
+						}
+					}
+					rd, err := bh.Object(name).NewReader(ctx)
+					want, ok := model[name]
+					if !ok {
+						res.Hit("read-absent")
 						if !errors.Is(err, ErrObjectNotExist) {
-							res.Violate("absent-not-notexist:"+kind, fmt.Sprintf("reading absent %q (stored: %q): reader=%v err=%v", absent, name, rd != nil, err), rp)
+							res.Violate("absent-not-notexist", fmt.Sprintf("reading absent %q: err=%v", name, err), rp)
 							bad = true
 						}
 						if rd != nil {
@@ -332,200 +380,187 @@ func TestVerifC18(t *testing.T) {
 						}
 						break
 					}
-				}
-				rd, err := bh.Object(name).NewReader(ctx)
-				want, ok := model[name]
-				if !ok {
-					res.Hit("read-absent")
-					if !errors.Is(err, ErrObjectNotExist) {
-						res.Violate("absent-not-notexist", fmt.Sprintf("reading absent %q: err=%v", name, err), rp)
+					if err != nil {
+						res.Violate("read-failed", fmt.Sprintf("reading %q: %v", name, err), rp)
+						bad = true
+						break
+					}
+					got, _ := io.ReadAll(rd)
+					rd.Close()
+					if string(got) != string(want) {
+						res.Violate("roundtrip", fmt.Sprintf("object %q: read %d bytes, last written %d bytes (contents differ)", name, len(got), len(want)), rp)
 						bad = true
 					}
-					if rd != nil {
-						rd.Close()
-					}
-					break
-				}
-				if err != nil {
-					res.Violate("read-failed", fmt.Sprintf("reading %q: %v", name, err), rp)
-					bad = true
-					break
-				}
-				got, _ := io.ReadAll(rd)
-				rd.Close()
-				if string(got) != string(want) {
-					res.Violate("roundtrip", fmt.Sprintf("object %q: read %d bytes, last written %d bytes (contents differ)", name, len(got), len(want)), rp)
-					bad = true
-				}
-				fmt.Fprintf(&sig, "r(%s);", name)
-			case k < 7 && rnd.Intn(4) == 0: // copy from an object that does not exist
-				src := "never/stored/" + names[rnd.Intn(len(names))]
-				err := Copy(ctx, bh.Object(name), other.Object(src))
-				res.Hit("copy-from-absent-source")
-				if err == nil {
-					res.Violate("copy-of-absent-succeeded", fmt.Sprintf("Copy(%q <- absent %q) reported success", name, src), rp)
-					bad = true
-					break
-				}
-				// the failed copy stored nothing: the destination is what it was
-				rd, rerr := bh.Object(name).NewReader(ctx)
-				if want, ok := model[name]; ok {
-					var got []byte
-					if rerr == nil {
-						got, _ = io.ReadAll(rd)
-						rd.Close()
-					}
-					if rerr != nil || string(got) != string(want) {
-						res.Violate("roundtrip:after-failed-copy", fmt.Sprintf("object %q: %d bytes had been written; after a copy from an absent source failed it reads %d bytes (err %v)", name, len(want), len(got), rerr), rp)
+					fmt.Fprintf(&sig, "r(%s);", name)
+				case k < 7 && rnd.Intn(4) == 0: // copy from an object that does not exist
+					src := "never/stored/" + names[rnd.Intn(len(names))]
+					err := Copy(ctx, bh.Object(name), other.Object(src))
+					res.Hit("copy-from-absent-source")
+					if err == nil {
+						res.Violate("copy-of-absent-succeeded", fmt.Sprintf("Copy(%q <- absent %q) reported success", name, src), rp)
 						bad = true
+						break
 					}
-				} else {
-					if rd != nil {
-						rd.Close()
-					}
-					if !errors.Is(rerr, ErrObjectNotExist) {
-						res.Violate("absent-not-notexist:after-failed-copy", fmt.Sprintf("object %q was never stored; after a copy from an absent source failed, reading it gives err=%v", name, rerr), rp)
-						bad = true
-					}
-				}
-				fmt.Fprintf(&sig, "cx(%s);", name)
-			case k < 7: // copy from another bucket
-				src := names[rnd.Intn(len(names))]
-				content := rnd.Bytes(rnd.Intn(500))
-				w, err := other.Object(src).NewWriter(ctx)
-				if err != nil {
-					break
-				}
-				w.Write(content)
-				w.Close()
-				if old, ok := model[name]; ok && len(content) < len(old) {
-					res.Hit("overwrite-shorter")
-				}
-				if err := Copy(ctx, bh.Object(name), other.Object(src)); err != nil {
-					res.Violate("copy-failed", err.Error(), rp)
-					bad = true
-					break
-				}
-				model[name] = content
-				fmt.Fprintf(&sig, "c(%s);", name)
-			default: // list
-				var prefix string
-				switch rnd.Intn(6) {
-				case 0:
-					prefix = ""
-				case 1: // component boundary of an existing or pooled name
-					parts := strings.Split(name, "/")
-					prefix = strings.Join(parts[:1+rnd.Intn(len(parts))], "/")
-					if rnd.Bool() && prefix != name {
-						prefix += "/"
-					}
-				case 2: // mid-component
-					prefix = name[:rnd.Intn(len(name)+1)]
-				case 3:
-					prefix = name
-				case 4:
-					prefix = "nomatch/" + name
-				default:
-					prefix = c18Components[rnd.Intn(len(c18Components))][:1]
-				}
-				if rnd.Intn(5) == 0 {
-					// a listing under a context that is cancelled before it starts or while
-					// it runs: it may fail, but if it ends without an error it is complete
-					cctx := &c18Ctx{Context: ctx, after: int64(rnd.Intn(12))}
-					it := bh.Objects(cctx, prefix)
-					var got []string
-					var lerr error
-					for {
-						n, err := it.Next()
-						if err != nil {
-							if !errors.Is(err, ErrObjectIteratorDone) {
-								lerr = err
-							}
-							break
+					// the failed copy stored nothing: the destination is what it was
+					rd, rerr := bh.Object(name).NewReader(ctx)
+					if want, ok := model[name]; ok {
+						var got []byte
+						if rerr == nil {
+							got, _ = io.ReadAll(rd)
+							rd.Close()
 						}
-						got = append(got, n)
-					}
-					res.Hit("listing-under-cancelled-context")
-					if lerr == nil {
-						var want []string
-						for n := range model {
-							if strings.HasPrefix(n, prefix) {
-								want = append(want, n)
-							}
+						if rerr != nil || string(got) != string(want) {
+							res.Violate("roundtrip:after-failed-copy", fmt.Sprintf("object %q: %d bytes had been written; after a copy from an absent source failed it reads %d bytes (err %v)", name, len(want), len(got), rerr), rp)
+							bad = true
 						}
-						sort.Strings(want)
-						sort.Strings(got)
-						if strings.Join(got, "\x00") != strings.Join(want, "\x00") {
-							res.Violate("list-mismatch:cancelled-context", fmt.Sprintf("listing %q under a context cancelled after %d polls ended without an error with %d of %d names", prefix, cctx.after, len(got), len(want)), rp)
+					} else {
+						if rd != nil {
+							rd.Close()
+						}
+						if !errors.Is(rerr, ErrObjectNotExist) {
+							res.Violate("absent-not-notexist:after-failed-copy", fmt.Sprintf("object %q was never stored; after a copy from an absent source failed, reading it gives err=%v", name, rerr), rp)
 							bad = true
 						}
 					}
-				}
-				if prefix != "" {
-					prefixed = true
-				}
-				var want []string
-				for n := range model {
-					if strings.HasPrefix(n, prefix) {
-						want = append(want, n)
-					}
-				}
-				sort.Strings(want)
-				it := bh.Objects(ctx, prefix)
-				var got []string
-				for k := 0; k < 100000; k++ {
-					o, err := it.Next()
-					if errors.Is(err, ErrObjectIteratorDone) {
+					fmt.Fprintf(&sig, "cx(%s);", name)
+				case k < 7: // copy from another bucket
+					src := names[rnd.Intn(len(names))]
+					content := rnd.Bytes(rnd.Intn(500))
+					w, err := other.Object(src).NewWriter(ctx)
+					if err != nil {
 						break
 					}
-					if err != nil {
-						res.Violate("list-error", err.Error(), rp)
+					w.Write(content)
+					w.Close()
+					if old, ok := model[name]; ok && len(content) < len(old) {
+						res.Hit("overwrite-shorter")
+					}
+					if err := Copy(ctx, bh.Object(name), other.Object(src)); err != nil {
+						res.Violate("copy-failed", err.Error(), rp)
 						bad = true
 						break
 					}
-					got = append(got, o)
+					model[name] = content
+					fmt.Fprintf(&sig, "c(%s);", name)
+				default: // list
+					var prefix string
+					switch rnd.Intn(6) {
+					case 0:
+						prefix = ""
+					case 1: // component boundary of an existing or pooled name
+						parts := strings.Split(name, "/")
+						prefix = strings.Join(parts[:1+rnd.Intn(len(parts))], "/")
+						if rnd.Bool() && prefix != name {
+							prefix += "/"
+						}
+					case 2: // mid-component
+						prefix = name[:rnd.Intn(len(name)+1)]
+					case 3:
+						prefix = name
+					case 4:
+						prefix = "nomatch/" + name
+					default:
+						prefix = c18Components[rnd.Intn(len(c18Components))][:1]
+					}
+					if rnd.Intn(5) == 0 {
+						// a listing under a context that is cancelled before it starts or while
+						// it runs: it may fail, but if it ends without an error it is complete
+						cctx := &c18Ctx{Context: ctx, after: int64(rnd.Intn(12))}
+						it := bh.Objects(cctx, prefix)
+						var got []string
+						var lerr error
+						for {
+							n, err := it.Next()
+							if err != nil {
+								if !errors.Is(err, ErrObjectIteratorDone) {
+									lerr = err
+								}
+								break
+							}
+							got = append(got, n)
+						}
+						res.Hit("listing-under-cancelled-context")
+						if lerr == nil {
+							var want []string
+							for n := range model {
+								if strings.HasPrefix(n, prefix) {
+									want = append(want, n)
+								}
+							}
+							sort.Strings(want)
+							sort.Strings(got)
+							if strings.Join(got, "\x00") != strings.Join(want, "\x00") {
+								res.Violate("list-mismatch:cancelled-context", fmt.Sprintf("listing %q under a context cancelled after %d polls ended without an error with %d of %d names", prefix, cctx.after, len(got), len(want)), rp)
+								bad = true
+							}
+						}
+					}
+					if prefix != "" {
+						prefixed = true
+					}
+					var want []string
+					for n := range model {
+						if strings.HasPrefix(n, prefix) {
+							want = append(want, n)
+						}
+					}
+					sort.Strings(want)
+					it := bh.Objects(ctx, prefix)
+					var got []string
+					for k := 0; k < 100000; k++ {
+						o, err := it.Next()
+						if errors.Is(err, ErrObjectIteratorDone) {
+							break
+						}
+						if err != nil {
+							res.Violate("list-error", err.Error(), rp)
+							bad = true
+							break
+						}
+						got = append(got, o)
+					}
+					sort.Strings(got)
+					if strings.Join(got, "\x00") != strings.Join(want, "\x00") {
+						res.Violate("list-mismatch", fmt.Sprintf("Objects(%q) = %q, stored names with that prefix: %q", prefix, got, want), rp)
+						bad = true
+					}
+					res.Hit("list")
+					if strings.Count(prefix, "/") == 0 && len(want) > 0 && strings.Count(want[0], "/") >= 2 {
+						res.Hit("list-deeply-nested")
+					}
+					fmt.Fprintf(&sig, "l(%s);", prefix)
 				}
-				sort.Strings(got)
-				if strings.Join(got, "\x00") != strings.Join(want, "\x00") {
-					res.Violate("list-mismatch", fmt.Sprintf("Objects(%q) = %q, stored names with that prefix: %q", prefix, got, want), rp)
-					bad = true
+				// confinement: every regular file of the main bucket's model is where it should be, nothing else
+				files := listRegular(root)
+				for n, c := range model {
+					rel := filepath.Join(placeDir, filepath.FromSlash(n))
+					if sz, ok := files[rel]; !ok || sz != int64(len(c)) {
+						res.Violate("placement", fmt.Sprintf("object %q should be the file %s (%d bytes); on disk: present=%v size=%d", n, rel, len(c), ok, sz), rp)
+						bad = true
+					}
+					delete(files, rel)
 				}
-				res.Hit("list")
-				if strings.Count(prefix, "/") == 0 && len(want) > 0 && strings.Count(want[0], "/") >= 2 {
-					res.Hit("list-deeply-nested")
+				for rel := range files {
+					if !strings.HasPrefix(rel, "other-bucket"+string(filepath.Separator)) {
+						res.Violate("stray-file", fmt.Sprintf("unexpected file %s under the storage root", rel), rp)
+						bad = true
+					}
 				}
-				fmt.Fprintf(&sig, "l(%s);", prefix)
 			}
-			// confinement: every regular file of the main bucket's model is where it should be, nothing else
-			files := listRegular(root)
-			for n, c := range model {
-				rel := filepath.Join(placeDir, filepath.FromSlash(n))
-				if sz, ok := files[rel]; !ok || sz != int64(len(c)) {
-					res.Violate("placement", fmt.Sprintf("object %q should be the file %s (%d bytes); on disk: present=%v size=%d", n, rel, len(c), ok, sz), rp)
-					bad = true
-				}
-				delete(files, rel)
+			if overwrote && prefixed {
+				res.Distinct(sig.String())
 			}
-			for rel := range files {
-				if !strings.HasPrefix(rel, "other-bucket"+string(filepath.Separator)) {
-					res.Violate("stray-file", fmt.Sprintf("unexpected file %s under the storage root", rel), rp)
-					bad = true
+			if i < 2 {
+				s := sig.String()
+				if len(s) > 300 {
+					s = s[:300]
 				}
+				res.Sample(map[string]any{"case": i, "names": names, "ops": s})
 			}
+			os.RemoveAll(root)
 		}
-		if overwrote && prefixed {
-			res.Distinct(sig.String())
-		}
-		if i < 2 {
-			s := sig.String()
-			if len(s) > 300 {
-				s = s[:300]
-			}
-			res.Sample(map[string]any{"case": i, "names": names, "ops": s})
-		}
-		os.RemoveAll(root)
-	}
-	res.Require("bucket-directory-is-a-symlink", "two-writers-at-once", "overlapping-listings", "list-during-write", "copy-from-absent-source", "listing-under-cancelled-context", "overwrite-shorter", "read-absent", "read-absent:below-an-object", "read-absent:directory-of-objects", "list", "list-deeply-nested")
+	})
+	res.Require("bucket-directory-is-a-symlink", "two-writers-at-once", "overlapping-listings", "list-during-write", "write-to-directory-of-objects", "copy-from-absent-source", "listing-under-cancelled-context", "overwrite-shorter", "read-absent", "read-absent:below-an-object", "read-absent:directory-of-objects", "list", "list-deeply-nested")
 	if err := res.Write(); err != nil {
 		t.Fatal(err)
 	}
